@@ -37,6 +37,7 @@ FIXES = [
     ("fix: skip the batch when its providers cannot be priced", "D14", ["C11", "C10"], "regress/C11/d14-stuck-context-without-exchange-rate.json"),
     ("fix: record the exchanged price as the request fee", "D15", ["C01", "C02", "C06", "C07", "C19"], "regress/C01/d15-exchanged-price-charged-fee-one-recorded.json"),
     ("fix: one provider without an exchange rate", "D16", ["C06"], "regress/C06/d16-unpriceable-provider-blocks-batch.json"),
+    ("fix: key an owner's earned fees by denom", "D17", ["C18"], "regress/C18/d17-owner-earnings-key-ignores-denom.json"),
 ]
 
 
